@@ -1,12 +1,14 @@
 (* C08: page cursor / batch row reader models.
    c08.pages <machine> <pagecounts> <ops>
-     machine: idx | pinned | noidx0 | noidx1 | lazy0 | lazy1 | spec | specnoidx | speclazy
-              (0/1: the chunk has a dictionary page)
+     machine: idx | noidx | lazy (the current code) | pinned (SeekToRow before b7bb510)
+              | noidx_pinned_dict | lazy_pinned_dict (index-less seek before 5c1fea6 on a
+              chunk with a dictionary page) | spec | specnoidx | speclazy
      pagecounts: comma separated hex row counts ("_" = no page)
      ops: comma separated  r (ReadPage) | s<hex> (SeekToRow) | l (load the offset index; lazy machines only)
      answer: per op  p<first>.<count> | e (io.EOF) | k (seek ok) | o (ErrSeekOutOfRange) | d (done)
-   c08.rows <machine> <clears> <pagecounts> <ops>
-     machine: idx | noidx0 | noidx1 | spec | specnoidx ; clears: 0|1 (Reset forgets the row index)
+   c08.rows <machine> <pagecounts> <ops>
+     machine: idx | noidx (the current code) | idx_pinned_reset | noidx_pinned_reset
+              (Reset before 3b258db) | spec | specnoidx
      ops: r<hex n> (ReadRows) | s<hex> (SeekToRow) | x (Reset)
      answer: per op  i<first>.<count>+<first>.<count>.../<eof> | k | o | d *)
 open Conv
@@ -66,10 +68,10 @@ let () =
           match m with
           | "idx" -> Model.run_indexed pages (list_of_tok op_of_tok ops)
           | "pinned" -> Model.run_pinned pages (list_of_tok op_of_tok ops)
-          | "noidx0" -> Model.run_noindex false pages (list_of_tok op_of_tok ops)
-          | "noidx1" -> Model.run_noindex true pages (list_of_tok op_of_tok ops)
-          | "lazy0" -> Model.run_lazy false pages (list_of_tok lop_of_tok ops)
-          | "lazy1" -> Model.run_lazy true pages (list_of_tok lop_of_tok ops)
+          | "noidx" -> Model.run_noindex pages (list_of_tok op_of_tok ops)
+          | "noidx_pinned_dict" -> Model.run_noindex_pinned true pages (list_of_tok op_of_tok ops)
+          | "lazy" -> Model.run_lazy pages (list_of_tok lop_of_tok ops)
+          | "lazy_pinned_dict" -> Model.run_lazy_pinned true pages (list_of_tok lop_of_tok ops)
           | "spec" -> Model.run_spec pages (list_of_tok op_of_tok ops)
           | "specnoidx" -> Model.run_spec_noindex pages (list_of_tok op_of_tok ops)
           | "speclazy" -> Model.run_spec_lazy pages (list_of_tok lop_of_tok ops)
@@ -77,15 +79,15 @@ let () =
         tok_of_list tok_of_out outs
     | _ -> failwith "c08.pages args");
   register "c08.rows" (function
-    | [m; clears; pages; ops] ->
+    | [m; pages; ops] ->
         let pages = list_of_tok nat_of_hex pages in
         let ops = list_of_tok rop_of_tok ops in
-        let clears = bool_of_tok clears in
         let outs =
           match m with
-          | "idx" -> Model.run_rows_indexed clears pages ops
-          | "noidx0" -> Model.run_rows_noindex clears false pages ops
-          | "noidx1" -> Model.run_rows_noindex clears true pages ops
+          | "idx" -> Model.run_rows_indexed pages ops
+          | "noidx" -> Model.run_rows_noindex pages ops
+          | "idx_pinned_reset" -> Model.run_rows_indexed_gen false pages ops
+          | "noidx_pinned_reset" -> Model.run_rows_noindex_gen false false pages ops
           | "spec" -> Model.run_rspec true pages ops
           | "specnoidx" -> Model.run_rspec false pages ops
           | _ -> failwith "c08.rows machine" in
